@@ -1539,6 +1539,51 @@ func ruleLoaderGuard(c *Ctx, ls *loaderSSA) {
 		"every cycle of the include recursion passes a call that is only reached after the ancestor-set test",
 		"the recursive load can be reached without passing the cycle test first: a cyclic include graph recurses without bound")
 	c.census("G-GUARD", "recursive calls in the include recursion", nRec, 2)
+	// --- G-TESTUSE: the ancestor set is only consulted to report a cycle.  Every membership test of the set decides
+	// (in its own function) a block that builds a cycle error; a test that merely filters candidates (a glob
+	// expansion that drops matches which are being included) makes the re-entry disappear without a diagnostic.
+	nTests := 0
+	for _, f := range ls.fns {
+		for _, b := range f.Blocks {
+			for _, ins := range b.Instrs {
+				if !ls.isLookupIn(ls.A)(ins) {
+					continue
+				}
+				tv, ok := ins.(ssa.Value)
+				if !ok {
+					continue
+				}
+				nTests++
+				reports := false
+				for _, b2 := range f.Blocks {
+					decided := false
+					for _, cc := range controlCondsPol(b2) {
+						if backSlice(cc.Cond)[tv] {
+							decided = true
+						}
+					}
+					if !decided {
+						continue
+					}
+					for _, in2 := range b2.Instrs {
+						st, ok := in2.(*ssa.Store)
+						if !ok {
+							continue
+						}
+						if k, ok := st.Val.(*ssa.Const); ok && k.Value != nil {
+							if v, exact := constant.Int64Val(constant.ToInt(k.Value)); exact && v == ls.cycleK && typeHasSuffix(k.Type(), "include.ErrorKind") {
+								reports = true
+							}
+						}
+					}
+				}
+				c.check(reports, "G-TESTUSE", funcName(f), "a test of the ancestor set leads to a cycle diagnostic", ins.Pos(),
+					"the membership test decides a block that builds the cycle error",
+					"the set of files that are currently being included is consulted without a cycle diagnostic depending on the outcome (a filter): an include that re-enters such a file is dropped silently instead of being reported on the directive that names it")
+			}
+		}
+	}
+	c.census("G-TESTUSE", "membership tests of the ancestor set", nTests, 1)
 
 }
 
